@@ -7,6 +7,15 @@ pub struct SearchTimer {
     start_time: Option<Instant>,
     time_limit: Option<Duration>,
     nodes_searched: u64,
+    /// Deterministic deadline expressed in nodes (replaces the wall clock when set).
+    #[cfg(flounder_verif)]
+    pub verif_node_limit: Option<u64>,
+    #[cfg(flounder_verif)]
+    pub verif_polls: std::cell::Cell<u64>,
+    #[cfg(flounder_verif)]
+    pub verif_stopped: std::cell::Cell<bool>,
+    #[cfg(flounder_verif)]
+    pub verif_nodes_after_stop: u64,
 }
 
 impl SearchTimer {
@@ -16,6 +25,14 @@ impl SearchTimer {
             start_time: None,
             time_limit: None,
             nodes_searched: 0,
+            #[cfg(flounder_verif)]
+            verif_node_limit: None,
+            #[cfg(flounder_verif)]
+            verif_polls: std::cell::Cell::new(0),
+            #[cfg(flounder_verif)]
+            verif_stopped: std::cell::Cell::new(false),
+            #[cfg(flounder_verif)]
+            verif_nodes_after_stop: 0,
         }
     }
 
@@ -27,6 +44,12 @@ impl SearchTimer {
         self.start_time = Some(Instant::now());
         self.time_limit = time_limit;
         self.nodes_searched = 0;
+        #[cfg(flounder_verif)]
+        {
+            self.verif_polls.set(0);
+            self.verif_stopped.set(false);
+            self.verif_nodes_after_stop = 0;
+        }
     }
 
     /// Resets the timer without changing the time limit
@@ -39,6 +62,10 @@ impl SearchTimer {
     /// Increments the node counter
     #[inline]
     pub fn increment_nodes(&mut self) {
+        #[cfg(flounder_verif)]
+        if self.verif_stopped.get() {
+            self.verif_nodes_after_stop += 1;
+        }
         self.nodes_searched += 1;
     }
 
@@ -57,6 +84,17 @@ impl SearchTimer {
     /// # Returns
     /// `true` if time limit exceeded, `false` otherwise
     pub fn should_stop(&self) -> bool {
+        #[cfg(flounder_verif)]
+        {
+            self.verif_polls.set(self.verif_polls.get() + 1);
+            if let Some(limit) = self.verif_node_limit {
+                let stop = self.nodes_searched >= limit;
+                if stop {
+                    self.verif_stopped.set(true);
+                }
+                return stop;
+            }
+        }
         if let (Some(start), Some(limit)) = (self.start_time, self.time_limit) {
             start.elapsed() >= limit
         } else {
